@@ -321,6 +321,9 @@ func (w *World) layoutRecords(k *Kind) [][5]string {
 	seen := map[string]bool{}
 	for _, rc := range es.Recs {
 		src := rc.Src
+		if rc.Kind == "byte" && src == "0" {
+			continue // an explicit zero byte: padding written by hand (the buffer starts zeroed anyway)
+		}
 		if rc.Kind == "packed" || strings.Contains(src, "opq(") {
 			src = "packed"
 		}
